@@ -347,6 +347,99 @@ def ref_named_task_case(rng, counters, violations):
         violations.append(dict(wit, what="C03 %s: %s" % (wit["case"], "; ".join(problems[:3]))))
 
 
+def lookalike_redefinition_case(rng, counters, violations):
+    """An expression is replaced by ANOTHER expression that prints the same (constants of different types whose text
+    coincides: 3 / Fraction(3), 0.5 / Decimal('0.5') / numpy.float32(0.5), 3 / numpy.int64(3); callees of the same name),
+    or by the very same expression again.  Afterwards the manager answers and reacts like a fresh one holding only the
+    surviving definition -- by value AND type."""
+    import copy
+    import decimal
+    import fractions
+    import numpy as np
+    import xdeps
+    import xdeps.tasks as T
+    pairs = [(3, fractions.Fraction(3)), (fractions.Fraction(3), 3), (decimal.Decimal("0.5"), 0.5), (0.5, decimal.Decimal("0.5")),
+             (np.float32(0.5), 0.5), (0.5, np.float32(0.5)), (3, np.int64(3)), (np.int64(3), 3), (np.float64(0.25), 0.25), (2, 2), (0.5, 0.25),
+             (np.array([1, 2]), np.array([1.0, 2.0]).astype(int) * 1.0)]
+    k1, k2 = rng.choice(pairs)
+    form = rng.choice(["mul", "add", "radd", "pow", "nested"])
+    where = rng.choice(["flat", "nested"])
+
+    def build(root, k):
+        a = root["a"]
+        if form == "mul":
+            return a * k
+        if form == "add":
+            return a + k
+        if form == "radd":
+            return k + a
+        if form == "pow":
+            return a ** 2 * k
+        return (a + root["b"]) * k - root["b"]
+
+    def data():
+        return {"a": 2, "b": 4, "c": 0, "n": {"c": 0}, "z": 0}
+    m = xdeps.Manager()
+    d = data()
+    r = m.ref(d, "r")
+    tgt = (lambda root: root["c"]) if where == "flat" else (lambda root: root["n"]["c"])
+    wit = {"case": "c = %s with constant %r (%s), re-assigned with %r (%s), %s target" % (form, k1, type(k1).__name__, k2, type(k2).__name__, where)}
+    try:
+        e1, e2 = build(r, k1), build(r, k2)
+        e1._get_value(), e2._get_value()
+    except Exception:
+        counters["lookalike_cases_skipped"] = counters.get("lookalike_cases_skipped", 0) + 1
+        return
+    try:
+        m.set_value(tgt(r), e1)
+        r["z"] = tgt(r) + 1                                     # a dependant of the re-defined location
+        if rng.random() < 0.5:
+            r["a"] = 3                                          # the first definition is used once
+        m.set_value(tgt(r), e2)
+    except Exception as exc:
+        violations.append(dict(wit, what="C03 %s raised %s: %s" % (wit["case"], type(exc).__name__, str(exc)[:200])))
+        return
+    counters["lookalike_redefinitions"] = counters.get("lookalike_redefinitions", 0) + 1
+    if str(e1) == str(e2) and not (type(k1) is type(k2)):
+        counters["lookalike_redefinitions_same_text_other_type"] = counters.get("lookalike_redefinitions_same_text_other_type", 0) + 1
+    m2 = xdeps.Manager()
+    d2 = data()
+    d2["a"] = d["a"]
+    r2 = m2.ref(d2, "r")
+    m2.set_value(tgt(r2), build(r2, k2))
+    r2["z"] = tgt(r2) + 1
+    problems = []
+    bad = mgrmon.index_violations(m)
+    if bad:
+        problems.append("index supports inconsistent: %s" % bad[:3])
+    if str_supports(m) != str_supports(m2):
+        problems.append("index supports differ from the fresh manager")
+    # the current expression of the location, compared by typed structure
+    def typed(e):
+        import xdeps.refs as R
+        if isinstance(e, R.MutableRef):          # a location: any attribute access on it builds a new reference
+            return (type(e).__name__, str(e))
+        if isinstance(e, R.BinOpExpr):
+            return (type(e).__name__, typed(e._lhs), typed(e._rhs))
+        if isinstance(e, R.BaseRef):
+            arg = e._arg if isinstance(e, (R.UnaryOpExpr, R.BuiltinRef)) else None
+            return (type(e).__name__, str(e), typed(arg) if arg is not None else None)
+        return (type(e).__name__, canon(e))
+    if typed(tgt(r)._expr) != typed(tgt(r2)._expr):
+        problems.append("current expression of the location is %s, in the fresh manager %s" % (typed(tgt(r)._expr), typed(tgt(r2)._expr)))
+    if not problems:
+        for key, val in (("a", 5), ("b", 7), ("a", -1), ("a", 2)):
+            for root in (r, r2):
+                root[key] = val
+            counters["twin_followups_compared"] = counters.get("twin_followups_compared", 0) + 1
+            ca, cb = {k: canon(v) for k, v in d.items()}, {k: canon(v) for k, v in d2.items()}
+            if ca != cb:
+                problems.append("after r[%r] = %r: %s, fresh manager %s" % (key, val, {k: ca[k] for k in ca if ca[k] != cb[k]}, {k: cb[k] for k in ca if ca[k] != cb[k]}))
+                break
+    if problems:
+        violations.append(dict(wit, what="C03 %s: %s" % (wit["case"], "; ".join(problems[:3]))))
+
+
 def run_shard(spec):
     rng = random.Random("C03:%s:%s" % (spec["seed"], spec["shard"]))
     mgrmon.install_reach_counters()
@@ -366,6 +459,10 @@ def run_shard(spec):
         if violations:
             break
         ref_named_task_case(rng, counters, violations)
+    for h in range(150 if not spec.get("replay") else 0):
+        if violations:
+            break
+        lookalike_redefinition_case(rng, counters, violations)
     for h in range(spec["histories"]):
         mgrmon.set_shuffle_rng(random.Random(rng.random()) if rng.random() < 0.5 else None)
         run_history(rng, counters, digests, samples, violations, known, rng.randrange(6, 28))
